@@ -62,7 +62,7 @@ UseCheck ==
 \* --- facts about the value an assignment binds
 RECURSIVE ShapeOK(_, _, _), SizeOK(_, _, _)
 ShapeOK(v, st, T) ==
-    CASE T.t = "any" -> TRUE
+    CASE T.t = "any" \/ v.k = "uninit" -> TRUE          \* an element of fp.empty that was never written holds no value of any type yet
       [] T.t = "real" -> IsNum(v) \/ v.k = "big"
       [] T.t = "bool" -> v.k = "bool"
       [] T.t = "ctx" -> v.k = "ctx"
